@@ -124,7 +124,8 @@ def constTerm : Expr → Except Err Rat
   | .l2 _ => .ok 0
   | .l1 _ => .ok 0
   | .quad _ _ => .ok 0
-  | .powSum _ _ => .ok 0
+  -- `float(len(vars)) if power == 0 else 0.0`
+  | .powSum vv k => .ok (if k == 0 then (vv.vars.length : Rat) else 0)
   | .unSum _ _ => .ok 0
   | .matSumV _ => .ok 0
   | .matSumE _ => .ok 0
@@ -231,7 +232,8 @@ def walk (V : List String) : Expr → List Rat → Rat → Except Err (List Rat)
   | .l2 _, r, _ => .ok r
   | .l1 _, r, _ => .ok r
   | .quad _ _, r, _ => .ok r
-  | .powSum _ _, r, _ => .ok r
+  -- `if power == 1:` the VectorSum loop; otherwise nothing
+  | .powSum vv k, r, m => .ok (if k == 1 then walkVars V vv.vars r m else r)
   | .unSum _ _, r, _ => .ok r
   | .matSumV _, r, _ => .ok r
   | .matSumE _, r, _ => .ok r
@@ -327,7 +329,7 @@ def coeffOne (x : String) : Expr → Except Err Rat
   | .l2 _ => .ok 0
   | .l1 _ => .ok 0
   | .quad _ _ => .ok 0
-  | .powSum _ _ => .ok 0
+  | .powSum vv k => .ok (if k == 1 && vv.vars.any (·.name == x) then 1 else 0)
   | .unSum _ _ => .ok 0
   | .matSumV _ => .ok 0
   | .matSumE _ => .ok 0
